@@ -636,6 +636,33 @@ def rule_pairclone(ctx, sig, body, arg):
     return sig, body
 
 
+def rule_position(ctx, sig, body, arg):
+    """@rule position: a function whose whole body is `X.iter().position(F)` (F a function name or a closure `|t| EXPR`) ->
+    the explicit loop `let mut pos__i = 0; while pos__i < X.len() { if F(&X[pos__i]) { return Some(pos__i); } pos__i += 1; } None`.
+    This is the definition of Iterator::position (index of the first element satisfying the predicate, evaluated in order, stopping at
+    the first hit); Verus has no support for iterator adapters taking closures. The loop invariant comes from `@loop 1` of the contract."""
+    inner = body.strip()
+    if not (inner.startswith('{') and inner.endswith('}')):
+        raise RuleError('position: body is not a block')
+    expr = inner[1:-1].strip()
+    m = re.match(r'^(\w+)\s*\.\s*iter\(\)\s*\.\s*position\((.*)\)$', expr, re.S)
+    if not m:
+        raise RuleError('position: body is not `X.iter().position(F)`')
+    x, f = m.group(1), m.group(2).strip()
+    elem = f'(&{x}[pos__i])'
+    mc = re.match(r'^\|\s*(\w+)\s*\|\s*(.*)$', f, re.S)
+    if mc:
+        pred = re.sub(r'\b' + re.escape(mc.group(1)) + r'\b', elem, mc.group(2).strip())
+    elif re.match(r'^\w+$', f):
+        pred = f'{f}{elem}'
+    else:
+        raise RuleError('position: predicate is neither a function name nor a one-parameter closure')
+    new = ('{\n    let mut pos__i: usize = 0;\n    while pos__i < ' + x + '.len() {\n        if ' + pred +
+           ' {\n            return Some(pos__i);\n        }\n        pos__i += 1;\n    }\n    None\n}')
+    ctx.note('R-position', expr, new)
+    return sig, new
+
+
 def rule_nocallback(ctx, sig, body, arg):
     """R-callback (call sites of the public wrappers): the argument `&mut dont_track_progress` (the no-op observer) is dropped,
     matching the removal of the `progress_callback` parameter from the callee."""
